@@ -68,6 +68,17 @@ class Grow(Process):
     def calculate_timestep(self, states):
         return CTX['ts'][self.parameters['who']]
 
+    def update_condition(self, timestep, states):
+        # a process may override this documented hook; the outcome per poll is
+        # a symbolic flag shared by the serial and the parallel run
+        if not CTX.get('cond_override') or self.parameters['who'] != 'a':
+            return True
+        self.polls = getattr(self, 'polls', 0) + 1
+        key = ('cond', self.parameters['who'], self.polls)
+        if key not in CTX['deltas']:
+            CTX['deltas'][key] = CTX['ctx'].flag('uc')
+        return CTX['deltas'][key]
+
     def next_update(self, timestep, states):
         key = (self.parameters['who'], self.k)
         self.k += 1
@@ -102,6 +113,10 @@ class Killer(Process):
     def next_update(self, timestep, states):
         self.n += 1
         op = self.parameters['op']
+        if self.n == 2:
+            # a second, harmless structural update: the views are rebuilt
+            # while generated / daughter processes may have updates in flight
+            return {'away': {'_add': [{'key': 'late', 'state': {}}]}}
         if self.n != 1 or 'a' not in states['agents']:
             return {}
         if op == 'delete':
@@ -243,7 +258,12 @@ def body(ctx, cfg):
              'daughters': bool(cfg.get('pd'))}
     if not any(flags.values()):
         return          # the all-serial run is the reference itself
-    CTX['empty_updates'] = ctx.flag('empty') if flags['a'] else False
+    # falsy in-flight results matter where the process is removed; a custom
+    # update_condition where it keeps running
+    CTX['empty_updates'] = (ctx.flag('empty') if flags['a'] and
+                            cfg['op'] in ('delete', 'divide') else False)
+    CTX['cond_override'] = (ctx.flag('override') if flags['a'] and
+                            cfg['op'] in ('none', 'move') else False)
     ctx.note('flags', flags)
     stubs.reset_sink()
     serial = run_once(ctx, cfg, dict.fromkeys(flags, False), ivs, 'serial')
